@@ -821,10 +821,15 @@ impl LdapConnAsync {
                                 },
                                 LdapOp::Search(_) => (),
                                 LdapOp::Abandon(msgid) => {
-                                    self.resultmap.remove(&msgid);
-                                    self.searchmap.remove(&msgid);
+                                    let was_single = self.resultmap.remove(&msgid).is_some();
+                                    let was_search = self.searchmap.remove(&msgid).is_some();
                                     let mut msgmap = self.msgmap.lock().expect("msgmap mutex (abandon)");
                                     msgmap.1.remove(&id);
+                                    // The abandoned operation won't get a response which would
+                                    // release its id, so do it here.
+                                    if was_single || was_search {
+                                        msgmap.1.remove(&msgid);
+                                    }
                                 },
                                 LdapOp::Unbind => {
                                     if let Err(e) = self.stream.get_mut().shutdown().await {
